@@ -331,5 +331,6 @@ MUTANTS = [
     M("flag-after-invalidate", I, "enable_queries",
       "        utils._queries_enabled = True\n        getattr(utils.get_fg_bg_colors, \"_invalidate_cache\")()\n        getattr(utils.get_terminal_name_version, \"_invalidate_cache\")()\n        with utils._cell_size_lock:\n            utils._cell_size_cache[:] = (0,) * 4\n",
       "        getattr(utils.get_fg_bg_colors, \"_invalidate_cache\")()\n        getattr(utils.get_terminal_name_version, \"_invalidate_cache\")()\n        with utils._cell_size_lock:\n            utils._cell_size_cache[:] = (0,) * 4\n        utils._queries_enabled = True\n", {"R1"}),
+    M("memo-key-names-only", U, "cached", "arguments = (args, tuple(kwargs.items()))", "arguments = (args, tuple(sorted(kwargs)))", {"MEMO"}),
     M("twin-zero-list", I, "enable_win_size_swap", "utils._cell_size_cache[:] = (0,) * 4", "utils._cell_size_cache[:] = [0, 0, 0, 0]", twin=True),
 ]
